@@ -220,7 +220,7 @@ def run(chk):
             vlib.correspond(chk, cases, impl, impl, oracle=oracle, what="priorities-oracle-only")
     # live sessions: the glue around the formulas (which arguments the call sites pass, when the check list is re-sorted)
     n = 400 if chk.tier == "quick" else 20000
-    sc.run_sim(chk, [sc.gen_priorities(chk.rng, i) for i in range(n)], lambda line, evs, meta: sc.oracle_priorities(evs, meta), "sim-C15")
+    sc.run_sim(chk, [sc.gen_priorities(chk.rng, i) for i in range(n)], lambda line, evs, meta: sc.oracle_priorities(evs, meta), "sim-C15", token=" pl ")
     return chk.finish(**FINISH)
 
 
